@@ -143,6 +143,11 @@ def prog_check(families, mode, report_compile_failures=True):
     def run(prop, tier, seed):
         reps = []
         for f in families:
+            # "<family>@thorough": only in the thorough tier
+            if f.endswith("@thorough"):
+                if tier != "thorough":
+                    continue
+                f = f[:-len("@thorough")]
             reps.append(run_family(prop, f, tier, seed, mode))
             if report_compile_failures and COMPILE_FAILURES.get((f, tier)):
                 reps.append(compile_failure_part(prop, f, tier))
@@ -179,7 +184,7 @@ P_ASSUME = COMMON_ASSUME + ["the reference evaluator and the AST printer are tru
 
 SPECS = {}
 QUICK_FAMILIES = ["shape", "scc", "lat", "agg", "timeout", "ds", "par", "sugar", "macro", "pack", "packseg", "perm", "latbound"]
-SPECS["C01"] = {"run": prog_check(["shape", "scc"], "C01"), "replay": prog_replay,
+SPECS["C01"] = {"run": prog_check(["shape", "scc", "shape-n3@thorough", "scc-n3@thorough"], "C01"), "replay": prog_replay,
                 "technique": "bounded-exhaustive enumeration of programs (compiled by the real macros) x all input databases, compared with a naive reference evaluator",
                 "assumptions": P_ASSUME + ["programs from the families F-shape and F-scc, domain {0,1}"]}
 SCHED = os.path.join(ENGINES, "sched")
@@ -248,10 +253,10 @@ def c02_run(prop, tier, seed):
 SPECS["C02"] = {"run": c02_run, "replay": sched_replay("par"),
                 "technique": "differential serial vs parallel macros on bounded-exhaustive programs x inputs at the default schedule (one rayon worker); exhaustive schedule exploration of collision harnesses under vsched",
                 "assumptions": P_ASSUME + ["this part runs the parallel code on a one-worker rayon pool (the 0-deviation schedule)"]}
-SPECS["C03"] = {"run": prog_check(["lat"], "C03"), "replay": prog_replay,
+SPECS["C03"] = {"run": prog_check(["lat", "lat-n3@thorough"], "C03"), "replay": prog_replay,
                 "technique": "bounded-exhaustive enumeration of lattice programs (8 lattice column types x 7 shapes, compiled by the real macros) x all input databases, compared with a naive least-fixed-point evaluator",
                 "assumptions": P_ASSUME + ["lattice values flow only through monotone uses (monotone step into a lattice head, upward-closed test); Product<..> cannot be a lattice column (no Hash impl)"]}
-SPECS["C04"] = {"run": prog_check(["agg"], "C04"), "replay": prog_replay,
+SPECS["C04"] = {"run": prog_check(["agg", "agg-n3@thorough"], "C04"), "replay": prog_replay,
                 "technique": "bounded-exhaustive enumeration of stratified programs with aggregation / negation (compiled by the real macros) x all input databases, compared with a naive stratified evaluator",
                 "assumptions": P_ASSUME + ["aggregated relation is an input, a non-looping or looping stratum output, a lattice, an aggregate result, or the head of two strata; aggregators count sum min max mean percentile(50) not and a user aggregator"]}
 def c05_run(prop, tier, seed):
@@ -274,12 +279,12 @@ SPECS["C13"] = {"run": c13_run, "replay": sched_replay("par"),
 SPECS["C14"] = {"run": prog_check(["timeout"], "C14"), "replay": prog_replay,
                 "technique": "fault enumeration by virtual clock: run_timeout(t) for every t in 0..=M+1 clock readings (every position at which the deadline can strike), single / repeated / double interruptions, then resume; compared with the reference fixpoint",
                 "assumptions": P_ASSUME + ["hook: ascent::internal::Instant has a per-thread virtual mode (1 ns per reading) under the verif-hooks feature", "serial macro"]}
-SPECS["C07"] = {"run": prog_check(["sugar"], "C07"), "replay": prog_replay,
+SPECS["C07"] = {"run": prog_check(["sugar", "sugar-n3@thorough"], "C07"), "replay": prog_replay,
                 "technique": "differential: every sugared program and its hand expansion (by the harness's own expander implementing the documented rules) are both compiled by the real macros and compared with each other and the reference on all inputs",
                 "assumptions": P_ASSUME + ["the harness expander is the documented semantics written down once; the reference evaluator run on the sugared AST directly must agree with it (checked on every input)"]}
 
 
-SPECS["C08"] = {"run": prog_check(["macro"], "C08"), "replay": prog_replay,
+SPECS["C08"] = {"run": prog_check(["macro", "macro-n3@thorough"], "C08"), "replay": prog_replay,
                 "technique": "differential: programs with in-program macros under every spelling clash between call-site variables, macro locals, parameter names and renamer-generated names vs their hand expansion (parameters substituted, macro-bound identifiers fresh per invocation), both compiled by the real macros, all inputs",
                 "assumptions": P_ASSUME + ["7 macro definitions x 16 call patterns x 7 naming schemes; the self-referential macro case is part of C15"]}
 
